@@ -87,11 +87,14 @@ def layout_case(ctx, suite, g, b, case):
     if 'pos' not in captured or set(captured['pos']) != set(g.nodes) or \
             any(not np.all(np.isfinite(p)) or p.shape != (2,) for p in captured['pos'].values()):
         ctx.contract('Y0', case, 'layout engine did not return one finite 2-vector per node')
-        return pos
-    if any(np.linalg.norm(captured['pos'][a] - captured['pos'][c]) <= 1e-9 for a, c in g.edges):
+        engine_ok = False
+    elif any(np.linalg.norm(captured['pos'][a] - captured['pos'][c]) <= 1e-9 for a, c in g.edges):
         ctx.contract('Y0', case, 'layout engine placed two bonded nodes on the same point')
-        return pos
-    if not ctx.oracle_only and not nx.get_node_attributes(g, 'ez_isomer'):
+        engine_ok = False
+    else:
+        engine_ok = True
+    # (the property itself is checked on the returned positions below, whatever the engine did)
+    if engine_ok and not ctx.oracle_only and not nx.get_node_attributes(g, 'ez_isomer'):
         # distance table
         ds = sorted({int(round(d)) for s in nx.shortest_path_length(g) for d in s[1].values()})
         raw = dict(nx.shortest_path_length(g))
@@ -123,16 +126,34 @@ def layout_case(ctx, suite, g, b, case):
             ctx.fail(case, f'position of node {k} is {p}')
             return pos
     lens = [float(np.linalg.norm(pos[a] - pos[c])) for a, c in g.edges]
-    if min(lens) <= 1e-12:
+    if min(lens) <= 1e-9 * b:
         ctx.fail(case, 'two bonded nodes coincide')
+        return pos
     mean = sum(lens) / len(lens)
     if abs(mean - b) > 1e-9 * max(1, b):
         ctx.fail(case, f'mean bond length {mean} but default_bond={b}')
     return pos
 
 
+def small_graphs():
+    """the smallest and the most symmetric connected graphs: always laid out first"""
+    out = [nx.path_graph(2), nx.path_graph(3), nx.cycle_graph(3), nx.complete_graph(4), nx.star_graph(3)]
+    spiro = nx.cycle_graph(3)
+    spiro.add_edges_from([(0, 3), (3, 4), (4, 0)])          # two triangles sharing a node (spiropentane)
+    out.append(spiro)
+    cubane = nx.Graph([(0, 1), (1, 2), (2, 3), (3, 0), (4, 5), (5, 6), (6, 7), (7, 4), (0, 4), (1, 5), (2, 6), (3, 7)])
+    out.append(cubane)
+    return out
+
+
 def run(ctx):
     rng = ctx.rng('nxgraph')
+    for g in small_graphs():
+        for b in (1.0, 0.5):
+            keys = rng.sample(range(3 * len(g) + 3), len(g))
+            h = nx.relabel_nodes(g, dict(zip(sorted(g.nodes), keys)))
+            case = {'kind': 'layout', 'nodes': list(h.nodes), 'edges': [list(e) for e in h.edges], 'bond': b, 'seed': 0}
+            layout_case(ctx, 'small', h, b, case)
     for i in range(ctx.budget(60, 1500)):
         if ctx.out_of_time():
             break
